@@ -6,6 +6,8 @@ fn main() {
     let args: Vec<String> = std::env::args().collect();
     match args.get(1).map(|s| s.as_str()) {
         Some("trim") => trim(&args[2]),
+        Some("parse") => parse(&args[2], args.get(3).map(|s| s.as_str())),
+        Some("k8src") => print!("{}", k8_source(args[2].parse().unwrap())),
         Some("pp") => pp(&args[2], args.get(3).map(|s| s == "strip").unwrap_or(false)),
         _ => { eprintln!("usage: vreplay trim SRC"); std::process::exit(2); }
     }
@@ -34,4 +36,38 @@ fn pp(src: &str, strip: bool) {
         }
         Err(e) => println!("ERR {:?}", e),
     }
+}
+
+/// parse SRC [capacity|unbounded]: ACCEPT/REJECT, and the simple identifiers of the tree
+fn parse(src: &str, cap: Option<&str>) {
+    #[cfg(sv_parser_verif)]
+    match cap {
+        Some("unbounded") => sv_parser_parser::set_memo_capacity(None),
+        Some(n) => sv_parser_parser::set_memo_capacity(Some(n.parse().unwrap())),
+        None => {}
+    }
+    #[cfg(not(sv_parser_verif))]
+    let _ = cap;
+    let src = if src == "@k8" { k8_source(300) } else if src == "@k7" { k8_source(0) } else { src.to_string() };
+    let defines: HashMap<String, Option<Define>> = HashMap::new();
+    match parse_sv_str(&src, PathBuf::from("t.sv"), &defines, &[""], false, false) {
+        Ok((tree, _)) => {
+            let mut ids = vec![];
+            for n in &tree {
+                if let RefNode::SimpleIdentifier(x) = n {
+                    ids.push(tree.get_str_trim(x).unwrap_or("").to_string());
+                }
+            }
+            println!("ACCEPT ids={:?}", ids.iter().filter(|x| x.as_str() == "logic" || x.as_str() == "module" || x.as_str() == "begin").collect::<Vec<_>>());
+        }
+        Err(e) => println!("REJECT {:?}", e),
+    }
+}
+
+/// the K7/K8 input: `wire logic;` after `end_keywords must be rejected (1800-2017 set in force)
+fn k8_source(n: usize) -> String {
+    let mut s = String::from("module m(a);\n`begin_keywords \"1364-2001\"\n");
+    for i in 0..n { s.push_str(&format!("wire w{};\n", i)); }
+    s.push_str("input a;\n`end_keywords\nwire logic;\nendmodule\n");
+    s
 }
